@@ -73,12 +73,57 @@ type c16Stream struct {
 	th       uint64
 	cb       func()
 	closed   bool
+	baCalls  int       // calls of BufferedAmount(): a writer has taken its flow-control decision
+	gate     *c16Gate  // concurrent-writer runs: see c16ConcurrentWriters
+}
+
+// c16Gate holds every caller of BufferedAmount() until `want` callers have arrived or `wait` has passed.
+// With the write mutex in place only one writer is ever between BufferedAmount() and Write(), so each
+// caller just waits out the (short) delay; without it all writers read the same amount and pass together.
+type c16Gate struct {
+	mu      sync.Mutex
+	want    int
+	wait    time.Duration
+	arrived int
+	open    chan struct{}
+}
+
+func (g *c16Gate) arrive() {
+	g.mu.Lock()
+	if g.open == nil {
+		g.open = make(chan struct{})
+	}
+	ch := g.open
+	g.arrived++
+	if g.arrived >= g.want {
+		close(ch)
+		g.open, g.arrived = nil, 0
+		g.mu.Unlock()
+		return
+	}
+	g.mu.Unlock()
+	select {
+	case <-ch:
+	case <-time.After(g.wait):
+		g.mu.Lock()
+		if g.open == ch {
+			close(ch)
+			g.open, g.arrived = nil, 0
+		}
+		g.mu.Unlock()
+	}
 }
 
 func (s *c16Stream) Read(b []byte) (int, error) {
 	s.mu.Lock()
 	defer s.mu.Unlock()
 	if len(s.items) == 0 {
+		if s.closed {
+			// a loop that keeps reading a closed, exhausted stream must not burn a CPU for the rest of the run
+			s.mu.Unlock()
+			time.Sleep(50 * time.Millisecond)
+			s.mu.Lock()
+		}
 		return 0, s.endErr
 	}
 	it := s.items[0]
@@ -109,8 +154,27 @@ func (s *c16Stream) Close() error {
 
 func (s *c16Stream) BufferedAmount() uint64 {
 	s.mu.Lock()
+	b := s.buffered
+	s.baCalls++
+	g := s.gate
+	s.mu.Unlock()
+	if g != nil {
+		g.arrive()
+	}
+	return b
+}
+
+// amount / decisions are the harness's own views (they do not count as a writer's decision)
+func (s *c16Stream) amount() uint64 {
+	s.mu.Lock()
 	defer s.mu.Unlock()
 	return s.buffered
+}
+
+func (s *c16Stream) decisions() int {
+	s.mu.Lock()
+	defer s.mu.Unlock()
+	return s.baCalls
 }
 func (s *c16Stream) SetReadDeadline(time.Time) error { return nil }
 func (s *c16Stream) SetBufferedAmountLowThreshold(th uint64) {
@@ -156,9 +220,33 @@ func (c16DummyConn) RemoteAddr() net.Addr             { return &net.UDPAddr{} }
 type c16ReadCase struct {
 	hbMode bool
 	maxMsg int
-	hb     []byte
+	hb     []byte // the payload the filter works with (after validate)
+	hbConf string // "" : hb is configured explicitly; "nil": no payload configured; "empty": an empty, non-nil payload configured
 	items  []c16Item
 	sizes  []int
+	late   bool          // the reader starts only when the receive queue is full (or the script is exhausted)
+	guard  time.Duration // hang guard (default 30 s)
+}
+
+// hbField is the configured payload as it goes on the model line: the model applies `validate`.
+func (c *c16ReadCase) hbField() string {
+	switch c.hbConf {
+	case "nil":
+		return "nil:" + vlib.Hex(defaultConfig.Heartbeat)
+	case "empty":
+		return "empty:" + vlib.Hex(defaultConfig.Heartbeat)
+	}
+	return vlib.Hex(c.hb)
+}
+
+func (c *c16ReadCase) hbConfig(interval time.Duration) *heartbeatConfig {
+	switch c.hbConf {
+	case "nil":
+		return &heartbeatConfig{Interval: interval}
+	case "empty":
+		return &heartbeatConfig{Interval: interval, Heartbeat: []byte{}}
+	}
+	return &heartbeatConfig{Interval: interval, Heartbeat: c.hb}
 }
 
 func (c *c16ReadCase) line() string {
@@ -171,7 +259,7 @@ func (c *c16ReadCase) line() string {
 		sz = append(sz, fmt.Sprint(m))
 	}
 	if c.hbMode {
-		return fmt.Sprintf("hbsctp|%d|%s|%s|%s", c.maxMsg, vlib.Hex(c.hb), strings.Join(its, ";"), strings.Join(sz, ","))
+		return fmt.Sprintf("hbsctp|%d|%s|%s|%s", c.maxMsg, c.hbField(), strings.Join(its, ";"), strings.Join(sz, ","))
 	}
 	return fmt.Sprintf("sctp|%d|eof|%s|%s", c.maxMsg, strings.Join(its, ";"), strings.Join(sz, ","))
 }
@@ -185,13 +273,32 @@ type c16ReadOut struct {
 func c16DoReads(c *c16ReadCase) ([]c16ReadOut, bool) {
 	st := &c16Stream{items: append([]c16Item(nil), c.items...), endErr: io.EOF}
 	var conn *SCTPConn
+	var hbc *hbConn
 	if c.hbMode {
-		hbc, _ := heartbeatServer(st, &heartbeatConfig{Interval: 60 * time.Second, Heartbeat: c.hb}, c.maxMsg)
+		hbc, _ = heartbeatServer(st, c.hbConfig(60*time.Second), c.maxMsg)
 		conn = newSCTPConn(hbc, c16DummyConn{}, uint64(c.maxMsg))
 	} else {
 		conn = newSCTPConn(st, c16DummyConn{}, uint64(c.maxMsg))
 	}
 	defer conn.Close()
+	if c.late && hbc != nil {
+		// let the receive loop run ahead of the reader until its queue is full: the blocking send
+		deadline := time.Now().Add(20 * time.Second)
+		for time.Now().Before(deadline) {
+			st.mu.Lock()
+			left := len(st.items)
+			st.mu.Unlock()
+			if len(hbc.recvCh) == cap(hbc.recvCh) || left == 0 {
+				break
+			}
+			time.Sleep(50 * time.Microsecond)
+		}
+		time.Sleep(2 * time.Millisecond) // the loop now sits in its send (or has finished)
+	}
+	guard := c.guard
+	if guard == 0 {
+		guard = 30 * time.Second
+	}
 	done := make(chan []c16ReadOut, 1)
 	go func() {
 		var outs []c16ReadOut
@@ -205,7 +312,7 @@ func c16DoReads(c *c16ReadCase) ([]c16ReadOut, bool) {
 	select {
 	case outs := <-done:
 		return outs, true
-	case <-time.After(30 * time.Second):
+	case <-time.After(guard):
 		return nil, false
 	}
 }
@@ -351,6 +458,11 @@ func c16CheckReads(out *vlib.Out, c *c16ReadCase, outs []c16ReadOut, useOracle b
 func c16RunReadCase(out *vlib.Out, c *c16ReadCase, useOracle bool) {
 	outs, ok := c16DoReads(c)
 	if !ok {
+		if c.hbConf == "empty" {
+			out.Checked()
+			out.OracleFail("C16:empty-heartbeat-payload-never-closes", "with an empty (non-nil) heartbeat payload configured every failed stream read looks like a heartbeat: the receive loop spins, the connection never closes, the reader hangs", c.line())
+			return
+		}
 		out.OracleFail("C16:read-hangs", "a Read did not return within 30 s", c.line())
 		return
 	}
@@ -414,6 +526,31 @@ func c16ReadCorpus(out *vlib.Out) {
 		c = &c16ReadCase{hbMode: mode, maxMsg: 40, hb: hb, items: []c16Item{{mk(5, 1), "-", false}, {nil, "-", false}, {mk(41, 3), "-", false}, {mk(40, 7), "-", false}}}
 		c16Pad(c, []int{1, 40, 41, 0, 100})
 		c16RunReadCase(out, c, mode)
+	}
+	// the receive queue (recvChBufSize messages) fills up before the reader starts: the loop's blocking send.
+	// Everything must still arrive, in order (a non-blocking send that drops when the queue is full loses data).
+	for _, n := range []int{recvChBufSize + 1, 200} {
+		c = &c16ReadCase{hbMode: true, maxMsg: 64, hb: hb, late: true}
+		for i := 0; i < n; i++ {
+			c.items = append(c.items, c16Item{[]byte{byte(i), byte(i >> 8), 0xA5, byte(i * 7)}, "-", false})
+			if i%50 == 49 {
+				c.items = append(c.items, c16Item{hb, "-", true})
+			}
+		}
+		if n == 200 {
+			c.items = append(c.items, c16Item{[]byte("last"), "other", false})
+		}
+		c16Pad(c, []int{3, 64, 1})
+		c16RunReadCase(out, c, true)
+		out.Count("corpus:receive-queue-full-before-reader")
+	}
+	// the payload the filter works with comes out of validate(): none configured, and an empty one configured
+	for _, conf := range []string{"nil", "empty"} {
+		c = &c16ReadCase{hbMode: true, maxMsg: 64, hb: hb, hbConf: conf, guard: 6 * time.Second,
+			items: []c16Item{{[]byte("AAAA"), "-", false}, {hb, "-", true}, {nil, "-", false}, {[]byte("BB"), "-", false}}}
+		c16Pad(c, []int{3})
+		c16RunReadCase(out, c, true)
+		out.Count("corpus:heartbeat-payload-" + conf)
 	}
 	// realistic sizes: maximum message size 65536, reads of 1 … beyond it
 	big := mk(65536, 0)
@@ -504,6 +641,12 @@ func c16ReadRandom(out *vlib.Out, r *vlib.Rand, n int) {
 		c := &c16ReadCase{hbMode: mode, maxMsg: maxMsg, hb: hb}
 		nitems := r.Range(0, 12)
 		useOracle := true
+		errDen := 8
+		if mode && r.Chance(1, 12) {
+			// more messages than the receive queue holds, and a reader that starts late
+			c.late, nitems, errDen = true, r.Range(recvChBufSize-4, recvChBufSize+40), 70
+			out.Count("reads:late-reader")
+		}
 		for j := 0; j < nitems; j++ {
 			it := c16Item{err: "-"}
 			switch x := r.Intn(20); {
@@ -530,7 +673,7 @@ func c16ReadRandom(out *vlib.Out, r *vlib.Rand, n int) {
 				it.b = r.Bytes(r.Range(1, maxMsg))
 				out.Count("item:data")
 			}
-			if r.Chance(1, 8) {
+			if r.Chance(1, errDen) {
 				it.err = []string{"other", "timeout", "eof", "closed", "short"}[r.Intn(5)]
 				out.Count("item:with-error")
 				if mode && bytes.Equal(it.b, hb) {
@@ -594,16 +737,41 @@ func c16FlowCase(out *vlib.Out, ops []string) {
 		switch op[0] {
 		case 'w':
 			buf := c16Pattern(wi, k)
-			over := k > 0 && uint64(k) <= max/2 && st.BufferedAmount()+uint64(k) > max && !closed
+			over := k > 0 && uint64(k) <= max/2 && st.amount()+uint64(k) > max && !closed
 			expectBlock := over && len(conn.write) == 0
 			viaToken := over && len(conn.write) == 1
 			ch := make(chan wres, 1)
+			before := st.decisions()
 			go func() { n, err := conn.Write(buf); ch <- wres{n, err} }()
 			if expectBlock {
-				select {
-				case r := <-ch:
-					outs = append(outs, fmt.Sprintf("returned-early:%d:%v", r.n, r.err))
-				case <-time.After(25 * time.Millisecond):
+				// The writer takes its decision when it reads the buffered amount (inside the write mutex).
+				// Until then nothing may be concluded: a drain that slipped in before the decision would let
+				// the write through legitimately.  After the decision it either sits in the select or is
+				// on its way through stream.Write, which takes microseconds.
+				var early *wres
+				deadline := time.Now().Add(20 * time.Second)
+				for st.decisions() == before && early == nil {
+					select {
+					case r := <-ch:
+						early = &r
+					default:
+						if time.Now().After(deadline) {
+							out.OracleFail("C16:write-hangs", "a Write did not reach its flow-control decision within 20 s", line)
+							return
+						}
+						time.Sleep(20 * time.Microsecond)
+					}
+				}
+				if early == nil {
+					select {
+					case r := <-ch:
+						early = &r
+					case <-time.After(30 * time.Millisecond):
+					}
+				}
+				if early != nil {
+					outs = append(outs, fmt.Sprintf("returned-early:%d:%v", early.n, early.err))
+				} else {
 					outs = append(outs, "blocks")
 					pending, pendingN, pendingBuf = ch, k, buf
 				}
@@ -695,7 +863,7 @@ func c16FlowCase(out *vlib.Out, ops []string) {
 		<-pending
 	}
 	// the model says "woke" when a write that had to wait found the token already there
-	impl := strings.Join(outs, ",") + fmt.Sprintf("|B=%d|T=%s", st.BufferedAmount(), vlib.B(len(conn.write) == 1))
+	impl := strings.Join(outs, ",") + fmt.Sprintf("|B=%d|T=%s", st.amount(), vlib.B(len(conn.write) == 1))
 	out.Case(line, impl, true)
 	// ---- oracle
 	out.Checked()
@@ -722,6 +890,81 @@ func c16FlowCase(out *vlib.Out, ops []string) {
 			out.OracleFail("C16:write-corrupted", fmt.Sprintf("forwarded message %d differs from the accepted write", i), line)
 			return
 		}
+	}
+}
+
+// c16ConcurrentWriters: several goroutines write through one SCTPConn at the same time.  Write is serialised by
+// a mutex in the code; the model's bound (`buffered_bounded`) is stated for serialised writes.  Oracle: the bound
+// holds on the real code under concurrent writers, nothing hangs, every accepted write is forwarded exactly once.
+func c16ConcurrentWriters(out *vlib.Out, r *vlib.Rand, writers, perWriter int) {
+	st := &c16Stream{endErr: io.EOF, gate: &c16Gate{want: writers, wait: 2 * time.Millisecond}}
+	conn := newSCTPConn(st, c16DummyConn{}, 65536)
+	max := writeMaxBufferedAmount
+	sizes := make([][]int, writers)
+	total := 0
+	for w := range sizes {
+		for j := 0; j < perWriter; j++ {
+			k := []int{int(max / 2), int(max / 2), 100000, 65536, r.Range(1, int(max/2))}[r.Intn(5)]
+			sizes[w] = append(sizes[w], k)
+			total++
+		}
+	}
+	replay := fmt.Sprintf("writers n=%d sizes=%v", writers, sizes)
+	var wg sync.WaitGroup
+	var mu sync.Mutex
+	okWrites, badWrites := 0, 0
+	for w := 0; w < writers; w++ {
+		wg.Add(1)
+		go func(w int) {
+			defer wg.Done()
+			for j, k := range sizes[w] {
+				n, err := conn.Write(c16Pattern(w*31+j, k))
+				mu.Lock()
+				if err == nil && n == k {
+					okWrites++
+				} else {
+					badWrites++
+				}
+				mu.Unlock()
+			}
+		}(w)
+	}
+	stop := make(chan struct{})
+	go func() { // the network acknowledges data all the time
+		for {
+			select {
+			case <-stop:
+				return
+			default:
+				st.drain(40000)
+				time.Sleep(100 * time.Microsecond)
+			}
+		}
+	}()
+	done := make(chan struct{})
+	go func() { wg.Wait(); close(done) }()
+	hung := false
+	select {
+	case <-done:
+	case <-time.After(30 * time.Second):
+		hung = true
+		conn.Close()
+		<-done
+	}
+	close(stop)
+	out.Checked()
+	st.mu.Lock()
+	maxSeen, nwrote := st.maxSeen, len(st.wrote)
+	st.mu.Unlock()
+	switch {
+	case maxSeen > max+max/2:
+		out.OracleFail("C16:buffered-amount-unbounded", fmt.Sprintf("%d concurrent writers: buffered amount reached %d > %d", writers, maxSeen, max+max/2), replay)
+	case hung:
+		out.OracleFail("C16:write-hangs", fmt.Sprintf("%d concurrent writers over a stream that keeps acknowledging data did not finish within 30 s", writers), replay)
+	case badWrites > 0 || nwrote != okWrites || okWrites != total:
+		out.OracleFail("C16:write-lost-or-duplicated", fmt.Sprintf("%d concurrent writers: %d writes accepted, %d refused, %d messages forwarded of %d", writers, okWrites, badWrites, nwrote, total), replay)
+	default:
+		out.Count("writers:concurrent-bounded")
 	}
 }
 
